@@ -10,10 +10,13 @@ CLAIMED = {
         engine='E-api',
         text='Rocq theorems C19_sound_complete (accept <-> fits overall and every limited trait; reject <-> not; '
              'never a service failure) and C19_sequences (any request sequence keeps the partition within '
-             'capacity), proved for every partition, reservation set and request; the dataflow of '
+             'capacity), C19_order_irrelevant / C19_spelling_irrelevant / C19_replaced_ignored / '
+             'C19_fewer_promises_keep_accept / C19_request_effect (the decision depends only on the quantities and the '
+             'set of other reservations), proved for every partition, reservation set and request; the dataflow of '
              '_calc_free/_calc_free_traits/_check_limit is regenerated from the Python AST on every run and must '
              'be the canonical one (C19_table_is_canonical by vm_compute); _check_capacity control flow tied by '
-             'differential execution of model (vm_compute) and implementation on generated cases.',
+             'differential execution of model (vm_compute) and implementation on generated cases, each well-formed case '
+             'also in a re-ordered, a re-spelled and a replaced-reservation variant.',
         note='Coq kernel; translator harness/tables.py; structured spellings stand for strings; fake admin objects '
              'for LDAP; inputs well-formed as the REST schema admits.',
         technique='Rocq proof over AST-regenerated dataflow table + differential correspondence (cases.v/vm_compute)',
